@@ -222,6 +222,35 @@ def run_case(case):
 
         x = jnp.arange(float(Bsz))
         c = jnp.arange(float(Bsz))
+
+        def readout(loss_obj, B_, n_, key_):
+            """rows used per row, read from d loss / d theta at theta = 0 (flat prior); returns (used, ok)."""
+            xb, cb = jnp.arange(float(B_)), jnp.arange(float(B_))
+            p_, s_ = part(Table(jnp.zeros((B_, B_))))
+            g_ = np.asarray(eqx.filter_grad(lambda pp: loss_obj(pp, s_, xb, cb, key_))(p_).theta, float) * B_ * (n_ + 1)
+            used_, ok_ = [], True
+            for i_ in range(B_):
+                row_ = g_[i_].copy()
+                diag_ = row_[i_]
+                row_[i_] = 0
+                mult_ = np.round(row_, 6)
+                used_.append([int(j_) for j_ in np.nonzero(mult_)[0] for _ in range(int(round(abs(mult_[j_]))))])
+                if not (abs(diag_ + n_) < 1e-6 and np.all(np.abs(mult_ - np.round(mult_)) < 1e-6) and set(np.unique(mult_)) <= {0.0, 1.0} and mult_.sum() == n_):
+                    ok_ = False
+            return used_, ok_
+
+        # ONE loss object used on batches of different sizes, larger first (a last, smaller batch of an epoch; a validation set
+        # smaller than the batch size): nothing cached from an earlier call may leak into a later one
+        if Bsz >= 3:
+            n_sh = min(2, Bsz - 1)
+            shared = ContrastiveLoss(Prior(jnp.zeros(Bsz + 3)), n_sh)
+            for B_seq in ((Bsz + 3, Bsz), (Bsz, Bsz + 2, Bsz - 1 if Bsz - 1 > n_sh else Bsz)):
+                for B_ in B_seq:
+                    used_, ok_ = readout(shared, B_, n_sh, keys[0])
+                    tr += 1
+                    nt += 1
+                    if not ok_:
+                        add("contrastive-rows-reused-object", f"one ContrastiveLoss(n_contrastive={n_sh}) object called on batches {B_seq}: for the batch of {B_} the rows used per row are {used_}; expected {n_sh} distinct OTHER rows each exactly once")
         for n in range(1, Bsz):
             for key in keys:
                 flat_prior = Prior(jnp.zeros(Bsz))
